@@ -190,6 +190,49 @@ def order_of_source():
     raise RuntimeError("Ephem.DEFAULT_ORDER not found in beyond/orbits/ephem.py")
 
 
+# ---------------------------------------------------------------- regeneration from the source
+
+SETTERS = [("sgp4", "sgp4.py", "Sgp4"), ("kepler", "kepler.py", "Kepler"), ("j2", "j2.py", "J2"), ("none", "none.py", "NonePropagator"),
+           ("num", "keplernum.py", "KeplerNum"), ("cw", "cw.py", "ClohessyWiltshire")]
+
+
+def setter_keeps_object(fn, cls):
+    """True when `propagator.orbit = orb` stores the very object (no setter at all, or `self._orbit = <parameter>`),
+    False when the setter stores `<parameter>.copy(...)`; anything else is an error (the model has no such case)"""
+    src = open(os.path.join(core.REPO, "beyond", "propagators", fn)).read()
+    for node in ast.walk(ast.parse(src)):
+        if isinstance(node, ast.ClassDef) and node.name == cls:
+            for st in node.body:
+                if isinstance(st, ast.FunctionDef) and st.name == "orbit" and any(
+                        isinstance(d, ast.Attribute) and d.attr == "setter" for d in st.decorator_list):
+                    param = st.args.args[1].arg
+                    for x in ast.walk(st):
+                        if isinstance(x, ast.Assign) and isinstance(x.targets[0], ast.Attribute) and x.targets[0].attr == "_orbit":
+                            v = x.value
+                            if isinstance(v, ast.Name) and v.id == param:
+                                return True
+                            if (isinstance(v, ast.Call) and isinstance(v.func, ast.Attribute) and v.func.attr == "copy"
+                                    and isinstance(v.func.value, ast.Name) and v.func.value.id == param):
+                                return False
+                            raise RuntimeError(f"{cls}.orbit setter stores something the model does not know: {ast.dump(v)[:80]}")
+                    raise RuntimeError(f"{cls}.orbit setter does not assign self._orbit")
+            return True
+    raise RuntimeError(f"class {cls} not found in {fn}")
+
+
+def extract(ctx):
+    order = order_of_source()
+    rows = [(k, setter_keeps_object(fn, cls)) for k, fn, cls in SETTERS] + [("ephem", False)]
+    txt = ("/- GENERATED by harness/props/C08.py from beyond/orbits/ephem.py and beyond/propagators/*.py on every run -/\n"
+           "namespace BeyondVerif.Generated\n"
+           f"/-- `Ephem.DEFAULT_ORDER` -/\ndef ephemDefaultOrder : Nat := {order}\n"
+           "/-- does the `orbit` setter of the propagator keep the very object it is given (true) or a converted copy (false) -/\n"
+           "def orbitSetterKeepsObject : List (String × Bool) := [" + ", ".join(f'("{k}", {"true" if v else "false"})' for k, v in rows) + "]\n"
+           "end BeyondVerif.Generated\n")
+    ch = core.write_if_changed(os.path.join(core.LEAN, "BeyondVerif", "Generated", "IterConst.lean"), txt)
+    return ["Generated/IterConst.lean"] if ch else []
+
+
 # ---------------------------------------------------------------- correspondence (model vs code)
 
 def enc_args(a):
